@@ -14,14 +14,14 @@ one() {
   git -C /repo worktree remove --force "$wt" >/dev/null 2>&1
   echo "$out"
 }
-export -f one; export TIER HERE
+export -f one; export TIER HERE SEED
 cat > run_seeded_inner <<'EOS'
 #!/bin/bash
 pid="$1"; tier="$2"; name="$3"
 # evidence/replay of the real tree must not be overwritten: run in a private copy of the output dirs
 tmp="$(mktemp -d)"; cp -r vf tools run known_findings.json "$tmp"/ 2>/dev/null; mkdir -p "$tmp/evidence" "$tmp/replay" "$tmp/.cache"
 ln -s "$PWD/.deps" "$tmp/.deps" 2>/dev/null
-( cd "$tmp" && REPO_DIR="$REPO_DIR" ./run "$pid" --tier "$tier" > log.txt 2>&1; echo $? > code )
+( cd "$tmp" && REPO_DIR="$REPO_DIR" ./run "$pid" --tier "$tier" --seed "${SEED:-1}" > log.txt 2>&1; echo $? > code )
 code="$(cat "$tmp/code")"
 clauses="$(grep -o 'clause=[^ ]*' "$tmp/log.txt" | sort -u | head -4 | tr '\n' ' ')"
 wall="$(grep -o 'wall=[0-9.]*s' "$tmp/log.txt" | tail -1)"
